@@ -36,13 +36,15 @@ def guarded_kill(chk, P, rule="R-GUARDKILL"):
     return n
 
 
-def refresh_first(chk, P, rule="R-REFRESHFIRST"):
+def refresh_first(chk, P, rule="R-REFRESHFIRST", only=None):
     """every reader of the distances list refreshes it first (on the same topology): the consumer call / list walk is
     dominated by hwloc_internal_distances_refresh(topology)"""
     n = 0
     for fname, unit, topo in (("hwloc__distances_get", "distances.c", "topology"), ("hwloc_topology_export_xml", "topology-xml.c", "topology"),
                               ("hwloc_topology_export_xmlbuffer", "topology-xml.c", "topology"), ("hwloc_topology_diff_build", "diff.c", None),
                               ("hwloc_shmem_topology_write", "shmem.c", "topology")):
+        if only is not None and fname not in only:
+            continue
         f = P.need_func(fname, unit)
         m = must.Must(f, track_calls={"hwloc_internal_distances_refresh"}).run()
         consumers = []
@@ -65,8 +67,15 @@ def refresh_first(chk, P, rule="R-REFRESHFIRST"):
                 continue
             k += 1
             n += 1
-            ok = any(fct[0] == "call" and fct[1] == "hwloc_internal_distances_refresh" for fct in st)
-            chk.inst(rule, f, "refresh-before#%d" % k, ok, "%s at %s must be preceded on every path by hwloc_internal_distances_refresh()" % (src(c)[:50], f.loc(c)), loc=f.loc(c))
+            # the refresh must be of the SAME topology whose list is read (hwloc_topology_diff_build reads two of them)
+            if c["k"] == "Member":
+                want = src(strip(c["c"][0]))
+            elif c.get("fn") == "hwloc__topology_dup":
+                want = src(strip(args(c)[1])) if len(args(c)) > 1 else None
+            else:
+                want = src(strip(args(c)[0])) if args(c) else None
+            ok = any(fct[0] == "call" and fct[1] == "hwloc_internal_distances_refresh" and (want is None or (fct[2] and fct[2][0] == want)) for fct in st)
+            chk.inst(rule, f, "refresh-before#%d" % k, ok, "%s at %s must be preceded on every path by hwloc_internal_distances_refresh(%s)" % (src(c)[:50], f.loc(c), want or ""), loc=f.loc(c))
     return n
 
 
